@@ -1168,6 +1168,12 @@ def remap_by_types(
                 else:
                     # A key worked out when the query runs: nothing known about the value
                     self._found_types[node] = Any
+            elif isinstance(t_node.slice, ast.Slice) and is_iterable(
+                self.lookup_type(t_node.value)
+            ):
+                # `e.jets()[0:2]`: a part of a sequence is a sequence of the same items
+                self._found_types[node] = self.lookup_type(t_node.value)
+                self._found_types[t_node] = self.lookup_type(t_node.value)
             else:
                 inner_type = unwrap_iterable(self.lookup_type(t_node.value))
                 self._found_types[node] = inner_type
